@@ -32,7 +32,9 @@ RULE = ('case = rig forest (0..4 rigs, 1..4 members, nesting 0..3, members senso
         'of rigs_remove / rigs_remove_inplace / rigs_recover / rigs_recover_inplace interleaved with edits of the rigs through '
         'rigs[r, d] = p, rigs[r] = {..}, rigs[r][d] = p, rigs[r].update, del rigs[r][d], rigs[r].pop, del rigs[r], pop, '
         'popitem, update, |=, setdefault, clear (some raising KeyError) and refills of the trajectories; every call is judged '
-        'against the rigs and trajectories as they are at that call. '
+        'against the rigs and trajectories as they are at that call; plus a max-depth stream: forests of nesting 1..3 and '
+        'chains of 2..6 rigs with the max_depth argument of the two in-place functions given explicitly (0, 1, depth-1, depth, '
+        'depth+1, 12, 14, 25): judged by the oracle when max_depth >= depth, model == code otherwise. '
         'Non-trivial = at least one rig is posed at some timestamp (history: at some call); distinct = distinct case content.')
 NOTES = ['copy.deepcopy(Trajectories) rebuilds the copy through __setitem__, which drops empty timestamps (repo fix for C07): the '
          'copying variants therefore differ from the in-place ones on inputs that hold an empty timestamp; modelled (deepcopy_traj)']
@@ -823,6 +825,29 @@ def _gen_history(rng):
             'cls': 'history:' + cls + ('/near' if near else '') + ('/full' if full else '')}
 
 
+def _gen_max_depth_case(rng):
+    """The `max_depth` argument of rigs_remove_inplace / rigs_recover_inplace (range(max_depth) iterations), drawn around
+    the nesting depth of the forest: below it (rig ids / mounted devices are left: only model == code is compared), equal to
+    it, above it (the property applies to the in-place results too; the result does not depend on the value)."""
+    if rng.random() < 0.5:
+        rigs, free = _gen_forest(rng, rng.choice([1, 2, 3, 4, 4]), rng.choice([1, 2, 3, 3]), rng.randint(0, 1))
+    else:
+        n = rng.randint(2, 6)
+        rigs = [[f'r{i:02d}', [[f'r{i - 1:02d}' if i else 'leaf', _rand_pose(rng)]]
+                 + ([[f's{i}', _rand_pose(rng)]] if rng.random() < 0.5 else [])] for i in range(n)]
+        rng.shuffle(rigs)
+        free = ['free'] if rng.random() < 0.3 else []
+    cls = rng.choice(['roots', 'roots', 'mixed'])
+    traj = _gen_traj(rng, rigs, free, rng.choice([1, 1, 2, 3]), cls)
+    mk = rng.choice(['none', 'none', 'valid'])
+    masters = _gen_masters(rng, rigs, traj, mk)
+    depth = _judge({'rigs': rigs, 'traj': traj})['depth']
+    k = rng.choice([0, 1, max(depth - 1, 0), max(depth - 1, 0), depth, depth, depth + 1, depth + 1, 12, 14, 25])
+    rel = 'below' if k < depth else 'exact' if k == depth else 'above'
+    return {'rigs': rigs, 'traj': traj, 'masters': masters, 'rec_in': None, 'max_depth': k,
+            'cls': f'max-depth:{rel}/{cls}/m={mk}'}
+
+
 def gen_cases(rng, tier):
     cases = []
     n_main = 230 if tier == 'quick' else 2000
@@ -849,6 +874,8 @@ def gen_cases(rng, tier):
         cases.append(_gen_print_precision_case(rng))
     for _ in range(24 if tier == 'quick' else 200):
         cases.append(_gen_dtype_case(rng))
+    for _ in range(36 if tier == 'quick' else 300):
+        cases.append(_gen_max_depth_case(rng))
     return cases
 
 
@@ -1000,6 +1027,8 @@ def run_impl(case, ctx):
     if case.get('kind') == 'history':
         return _run_history(case)
     obs = {'pure': True, 'impure': []}
+    # explicit max_depth for the two in-place functions (the copying variants have no such argument); absent = default call
+    kw = {'max_depth': case['max_depth']} if case.get('max_depth') is not None else {}
 
     def run_pair(copy_fn, inplace_fn, traj_l):
         rigs, traj = _build(case['rigs'], traj_l, case.get('ctor'))
@@ -1016,7 +1045,7 @@ def run_impl(case, ctx):
             obs['pure'] = False
             obs['impure'].append(copy_fn.__name__ + ' returned its argument')
         rigs2, traj2 = _build(case['rigs'], traj_l, case.get('ctor'))
-        exc2, _ = _call(lambda: inplace_fn(traj2, rigs2))
+        exc2, _ = _call(lambda: inplace_fn(traj2, rigs2, **kw))
         o_ip = {'exc': exc2, 'state': _dump(traj2)}
         if _dump(rigs2) != r0:
             obs['pure'] = False
@@ -1032,7 +1061,7 @@ def run_impl(case, ctx):
         ms = case['masters']
         obs['recover'], obs['recover_ip'] = run_pair(
             lambda t, r: kapture.rigs_recover(t, r, None if ms is None else list(ms)),
-            lambda t, r: kapture.rigs_recover_inplace(t, r, None if ms is None else list(ms)), rec_in)
+            lambda t, r, **k: kapture.rigs_recover_inplace(t, r, None if ms is None else list(ms), **k), rec_in)
         obs['impure'] = [s.replace('<lambda>', 'rigs_recover') for s in obs['impure']]
     else:
         obs['recover'] = obs['recover_ip'] = None
@@ -1158,7 +1187,11 @@ def oracle(case, obs):
     J = _judge(case)
     if not J['remove_judged']:
         return None
+    # an explicit max_depth below the nesting depth is outside the statement for the in-place call that received it
+    ip_judged = case.get('max_depth') is None or case['max_depth'] >= J['depth']
     for which in ('remove', 'remove_ip'):
+        if which == 'remove_ip' and not ip_judged:
+            continue
         sig = _check_removed(case, J, obs[which], 'rigs_remove' + ('_inplace' if which.endswith('ip') else ''))
         if sig:
             return sig
@@ -1168,6 +1201,8 @@ def oracle(case, obs):
     if not _consistent(case, J) or not _masters_ok(case, J, removed):
         return None
     for which in ('recover', 'recover_ip'):
+        if which == 'recover_ip' and not ip_judged:
+            continue
         sig = _check_recovered(case['traj'], J, removed, obs[which], 'rigs_recover' + ('_inplace' if which.endswith('ip') else ''))
         if sig:
             return sig
@@ -1268,6 +1303,7 @@ def encode(case, obs):
     fields = {
         'c_rigs': rigs, 'c_traj': share(case['traj']),
         'c_masters': kv.copt(None if case['masters'] is None else kv.clist(kv.cstr(s) for s in case['masters'])),
+        'c_fuel': kv.cnat(case['max_depth'] if case.get('max_depth') is not None else 10),
         'o_remove': cobs(obs['remove']), 'o_remove_ip': cobs(obs['remove_ip']),
         'c_rec_in': 'None' if obs['rec_in'] is None else f'(Some {share(obs["rec_in"])})',
         'o_recover': 'None' if obs['recover'] is None else f'(Some {cobs(obs["recover"])})',
@@ -1409,7 +1445,9 @@ LEVEL_TEXT = ('Theorems in coq/Props/C06.v hold for every rig forest of nesting 
               'of every rig with something posed below it (any depth): every such top-level rig is recovered, no sensor moves; KeyError unreachable; a depth-11 '
               'chain keeps a rig id (the bound is real); over histories (calls interleaved with any edits of the rigs and refills) '
               'every call returns what the function returns on the current (rigs, trajectories), and the inverse law holds for the '
-              'geometry of now. The model is tied to the code by running the four real functions on '
+              'geometry of now; for every explicit max_depth >= nesting depth the same results, literally independent of its value; '
+              'trajectories with nothing to replace / recover come back literally unchanged, both operations are idempotent, and '
+              'remove o recover o remove poses every sensor where the first remove did. The model is tied to the code by running the four real functions on '
               'generated forests / trajectories (single calls and histories on one Rigs / one Trajectories object) and comparing '
               'key sets exactly and poses to 1e-9 inside Coq.')
 LEVEL_NOTE = ('not modelled: float rounding of compose/inverse (1e-9 tolerance of the property), numba/numpy internals; deepcopy is '
